@@ -60,8 +60,8 @@ var (
 func (c07) Describe() sim.Description {
 	return sim.Description{
 		Level: "exploration",
-		Rule: "classes parked / recursion / start-function: a guest parked in memory.atomic.wait, recursing without loops, or spinning in its start-section function (inside InstantiateModule); otherwise: one scenario per run: a non-terminating guest of a tape-chosen cycle shape (loop, nested loops, br_table re-entry, loop around bounded recursion, self return_call, mutual return_call, return_call_indirect, call_indirect in a loop, loop entered from a host callback, tail call into a looping function; with tape-chosen padding) " +
-			"x yielding (host call in the cycle) or pure spin x cause (cancel, deadline, CloseWithExitCode from another goroutine, Runtime.Close) x moment (context already done at call time, at the k-th host callback, or from a second goroutine after the guest signalled entry). " +
+		Rule: "classes parked / sleeping / recursion / start-function: a guest parked in memory.atomic.wait, asleep in WASI poll_oneoff with a real sleep configured, recursing without loops, or spinning in its start-section function (inside InstantiateModule); otherwise: one scenario per run: a non-terminating guest of a tape-chosen cycle shape (loop, nested loops, br_table re-entry, loop around bounded recursion, self return_call, mutual return_call, return_call_indirect, call_indirect in a loop, loop entered from a host callback, tail call into a looping function; with tape-chosen padding) " +
+			"x yielding (host call in the cycle) or pure spin x cause (cancel, deadline, CloseWithExitCode from another goroutine, Runtime.Close, cancel/timeout with a custom cause, cancel while Runtime.Close is blocked in another module's notification, a context of the embedder's own type done with its own error) x moment (context already done at call time, at the k-th host callback, or from a second goroutine after the guest signalled entry). " +
 			"Oracle: the call returns (supervisor watchdog 30 s otherwise: hang = violation), the error is *sys.ExitError with the code of the cause, IsClosed() is true, and for yielding guests the number of host callbacks after the closed flag became visible is at most the number of host-call sites in the cycle (derived from the plan). " +
 			"Non-trivial: cause fired while the guest was inside the cycle (not before the call); distinct = (shape, padding, yield, cause, moment)",
 		RealCode: []string{"both engines with WithCloseOnContextDone(true)", "watcher goroutine CloseModuleOnCanceledOrTimeout", "FailIfClosed", "exit-code checks emitted by both lowerings"},
